@@ -45,6 +45,20 @@ def make_pool(seed, n):
                    {'k' * 300: 1}, '\ud800'):
         ops.append({'op': 'encode_table',
                     'v': {'a': 1, 'outer': {'inner': [1, {'p': poison}]}}})
+    # empty and minimal containers, strings and byte arrays at every place a
+    # decoder could be tempted to hand out one shared object for them
+    for tbl in ({'a': []}, {'a': {}}, {'a': bytearray()}, {'a': ''},
+                {'a': [[]], 'b': [{}]}, {'a': {'b': []}}, {'a': [0]},
+                {'a': [None]}, {'a': {'': None}}, {}, {'a': [[], []]},
+                {'a': bytearray(b'\x00')}, {'a': [bytearray()]}):
+        for _rep in range(2):
+            ops.append({'op': 'decode', 'data': refcodec.enc_method(
+                refspec.BY_NAME['Queue.Declare'].index,
+                {'ticket': 0, 'queue': 'q', 'passive': False,
+                 'durable': False, 'exclusive': False, 'auto_delete': False,
+                 'nowait': False, 'arguments': tbl}, 1)})
+            ops.append({'op': 'decode', 'data': refcodec.enc_header(
+                0, {'headers': tbl} if tbl else {}, 1)})
     # every refusal path of the envelope, explicitly
     fr0 = wire.method_frame(rnd, refspec.BY_NAME['Queue.Declare'],
                             allow_refuse=False)
@@ -59,6 +73,7 @@ def make_pool(seed, n):
         ops.append({'op': 'decode', 'data': b})
     kinds = ['encode_method', 'encode_header', 'encode_table', 'decode',
              'decode_bad', 'encode_bad']
+    n = max(n, len(ops) + 60)       # the explicit ops never crowd these out
     while len(ops) < n:
         k = kinds[len(ops) % len(kinds)]
         if k == 'encode_method':
